@@ -18,6 +18,19 @@ fn enum_pairs(bits: usize, f: &mut dyn FnMut(&Case) -> R) -> R {
     Ok(())
 }
 
+/// all pairs of values whose limbs come from a small alphabet (complete enumeration)
+fn enum_alphabet_pairs(bits: usize, f: &mut dyn FnMut(&Case) -> R) -> R {
+    let alpha: &[u64] = if nlimbs(bits) <= 3 { &LIMB_ALPHABET8 } else { &LIMB_ALPHABET5 };
+    let vals = alphabet_values(bits, alpha);
+    for la in &vals {
+        for lb in &vals {
+            let (la, lb) = (la.clone(), lb.clone());
+            f(&Case::new().l(la).l(lb))?;
+        }
+    }
+    Ok(())
+}
+
 fn strat(bits: usize) -> BoxedStrategy<Case> {
     let n = nlimbs(bits);
     if bits == 0 {
@@ -202,7 +215,7 @@ fn body<const B: usize, const L: usize>(c: &Case, rec: &mut Rec) -> R {
 fn main() {
     let spec = PropSpec {
         id: "C03",
-        rule_text: "cases (n,d) per width from 7 generator classes (divisors whose normalised leading 128 bits are solved onto the tie of the 3-by-2 reciprocal's last correction step, with limb-aligned power-of-two numerators; n = d + {-1,0,1} and the largest multiple of d that fits + {-1,0,1}; independent alphabet values; divisors of every limb length with 0..63 leading zero bits; n=q*d+r built from extreme q,d,r; numerators copying the divisor's top limbs with perturbed lower limbs; d=0) plus exhaustive enumeration of all pairs for BITS<=8. / and % through all six operator shapes. Oracle: num-bigint quotient/remainder. Non-trivial: d!=0, quotient!=0 and d not a power of two; distinct by (rule,width,n,d).",
+        rule_text: "cases (n,d) per width from 7 generator classes (divisors whose normalised leading 128 bits are solved onto the tie of the 3-by-2 reciprocal's last correction step, with limb-aligned power-of-two numerators; n = d + {-1,0,1} and the largest multiple of d that fits + {-1,0,1}; independent alphabet values; divisors of every limb length with 0..63 leading zero bits; n=q*d+r built from extreme q,d,r; numerators copying the divisor's top limbs with perturbed lower limbs; d=0) plus exhaustive enumeration of all pairs for BITS<=8 and of all pairs of values whose limbs come from {0,1,2,2^63-1,2^63,2^63+1,MAX-1,MAX} (2-3 limbs) or {0,1,2^63,MAX-1,MAX} (4 limbs) at 8 widths. / and % through all six operator shapes. Oracle: num-bigint quotient/remainder. Non-trivial: d!=0, quotient!=0 and d not a power of two; distinct by (rule,width,n,d).",
         assumptions: vec![
             "num-bigint division is correct (oracle)",
             "x86-64 little-endian target only",
@@ -214,6 +227,7 @@ fn main() {
         spec,
         |jobs, _| {
             reg_enum!(jobs, "div_all_pairs", enum_pairs, body; [0, 1, 2, 3, 4, 5, 6, 7, 8]);
+            reg_enum!(jobs, "div_limb_alphabet", enum_alphabet_pairs, body; [65, 127, 128, 129, 190, 192, 250, 256]);
             w_all_wide!(reg_gen!(jobs, "div", 25000, strat, body;));
         },
         |_| Map::new(),
